@@ -17,6 +17,19 @@ CLAIMS = {
    ref="DESIGN.md section 4 C09"),
 }
 
+CLAIMS.update({
+ "C05": dict(
+   technique="symbolic normal forms (sympy) of the kernel's return expressions obtained by def-use expansion over clang's AST; compositional translation-weight typing",
+   text="Decides, for all operand values and for each of the seven return statements of compute_node_triangle_distance: the barycentric components sum to one; the returned squared distance is the squared distance from the query point to the point those components designate; both are unchanged under a common translation. An identity on the expression is stronger than any number of samples. It does not decide that the region tests pick the closest point, non-negativity of the components, rotation invariance or rounding - those need reasoning under branch conditions / floating point, which this family does not do.",
+   note="Trusted: sympy expand/cancel for polynomial identity; refutations are exact non-zero values at rational points (sound). vec3's operators are opened from their own AST, not modelled. No branch condition is interpreted.",
+   ref="DESIGN.md section 4 C05, section 2 (LF engine)"),
+ "C07": dict(
+   technique="symbolic force/torque ledgers per force block (LF engine) + dominance rules on the structured CFG + constructor store summaries, all three contact models",
+   text="Decides for every force block of the three contact models (all six configurations): the add_force arguments sum to zero and the net torque is zero for all operand values (lemma: kernel components sum to 1, proved in the same run), four distinct receivers; each block and each coupling is dominated by 'squared distance < squared configured cut-off' with the cut-off fields' values established from the constructor; the contact routine is only called for different cells; in the repulsive block the node force is -s(x_node - x_cpa) with s a product of non-negative atoms; the repulsive/adhesive decision table agrees across models and with the documented rule.",
+   note="Assumes non-negative strengths, areas and barycentric coordinates. Does not decide the correctness of the inside/outside decision for arbitrary geometry, nor atomicity (see C15).",
+   ref="DESIGN.md section 4 C07"),
+})
+
 NA_DEFAULT = "checker not finished yet (see DESIGN.md section 4 for the planned clauses)"
 NA = {}
 
